@@ -15,8 +15,12 @@ def cs(c):
     return R[c // 4] + S[c % 4]
 
 
+class Fmt:
+    commas = False          # thousands separators (the sites whose patterns allow them)
+
+
 def money(x):
-    return f'${x}'
+    return f'${x:,}' if Fmt.commas else f'${x}'
 
 
 class Hand:
@@ -24,7 +28,7 @@ class Hand:
 
     def __init__(self, rec, ops, n, stacks, seats, names, hero):
         self.n, self.stacks, self.seats, self.names, self.hero = n, stacks, seats, names, hero
-        self.button_seat = seats[n - 1] if n > 2 else seats[1]
+        self.button_seat = seats[n - 1] if n > 2 else seats[1]      # (the caller may move it to an empty seat: dead button)
         self.blinds = []          # (player, amount) in posting order
         self.hole = {}
         self.streets = [[]]       # per street: list of (player, kind, to, added, call, allin)
